@@ -212,78 +212,76 @@ def _group_loop(ctx, rep, it, filter_ok):
 
 
 def _rowgroupby(ctx, rep):
+    """Decided per path (callable key or not; value given or not) on the returned expression with the locals written in
+    place: the innermost groupby groups the record stream by the caller's callable resp. by
+    comparable_itemgetter(*asindices(hdr, key)), and the key that reaches the caller through the generator layers is the
+    callable's own value resp. the unwrapped Comparable (k.inner)."""
+    from ..ladder import paths, test_defs, resolve
     fn = ctx.project.need_fn('petl.util.base:rowgroupby')
     g = [n for n in own_nodes(fn.node) if isinstance(n, ast.Call) and norm(n.func) in ('groupby', 'itertools.groupby')]
-    if len(g) != 1:
+    if not g:
         raise AnalysisError('anchor vanished: groupby call in rowgroupby')
-    # the key function handed to groupby, whatever the locals are called: every binding of it is either the caller's
-    # callable `key` or comparable_itemgetter(*X) with X = asindices(<header>, key)
-    kw = [k.value for k in g[0].keywords if k.arg == 'key'] + list(g[0].args[1:2])
-    ok = len(kw) == 1 and isinstance(kw[0], ast.Name)
-    vals = []
-    if ok:
-        kname = kw[0].id
-        binds = [n for n in own_nodes(fn.node) if isinstance(n, ast.Assign) and any(norm(t) == kname for t in n.targets)]
-        ok = bool(binds)
-        for b in binds:
-            v = b.value
-            vals.append(norm(v))
-            if isinstance(v, ast.Name) and v.id == 'key':
-                continue
-            good = False
-            if isinstance(v, ast.Call) and norm(v.func) == 'comparable_itemgetter' and len(v.args) == 1 and \
-                    isinstance(v.args[0], ast.Starred):
-                inner = v.args[0].value
-                srcs = [inner]
-                if isinstance(inner, ast.Name):
-                    srcs = [n.value for n in own_nodes(fn.node) if isinstance(n, ast.Assign) and
-                            any(norm(t) == inner.id for t in n.targets)]
-                good = bool(srcs) and all(isinstance(x, ast.Call) and norm(x.func) == 'asindices' and len(x.args) == 2 and
-                                          norm(x.args[1]) == 'key' for x in srcs)
-            if not good:
-                ok = False
-    vals = sorted(vals)
-    if ok:
-        rep.held('R9.2', fn, 'groupby(it, key=getkey)', 'Comparable key over the key fields, or the caller\'s callable', g[0])
-    else:
-        rep.violated('R9.2', fn, 'groupby(it, key=getkey)',
-                     'rowgroupby must group the record stream by comparable_itemgetter(*asindices(hdr, key)) (or the callable '
-                     'key); found getkey in %s' % vals, g[0])
-    # the key handed to the caller: the callable key's own value, the unwrapped Comparable (k.inner) otherwise -- on every
-    # path, whatever the shape of the ladder and the names of the flags
-    from ..ladder import paths, test_defs
     defs = test_defs(fn.node)
+
+    def layers(e):
+        """(groupby call, key as it reaches this level: 'K' | 'K.inner' | None)"""
+        if isinstance(e, ast.Call) and norm(e.func) in ('groupby', 'itertools.groupby'):
+            return e, 'K'
+        if isinstance(e, ast.GeneratorExp) and len(e.generators) == 1 and not e.generators[0].ifs and \
+                isinstance(e.elt, ast.Tuple) and e.elt.elts and isinstance(e.generators[0].target, ast.Tuple) and \
+                e.generators[0].target.elts and isinstance(e.generators[0].target.elts[0], ast.Name):
+            inner = layers(e.generators[0].iter)
+            if inner is None:
+                return None
+            k = e.generators[0].target.elts[0].id
+            first = norm(e.elt.elts[0])
+            if first == k:
+                return inner
+            if first == k + '.inner' and inner[1] == 'K':
+                return inner[0], 'K.inner'
+            return inner[0], None
+        return None
+    seen = 0
     for is_callable in (True, False):
-        want_inner = not is_callable
         for pth in paths(fn.node.body, {'callable(key)': is_callable}, defs, track=True, limit=64):
             if pth.kind != 'return' or pth.node.value is None:
                 continue
             r = pth.node
-            v = r.value
             c = '%s [callable key: %s]' % (norm(r)[:60], is_callable)
-            if isinstance(v, ast.Name):
-                # the groupby object itself: keys as groupby produced them
-                got_inner = False
-                first = v.id
-            elif isinstance(v, ast.GeneratorExp) and isinstance(v.elt, ast.Tuple) and v.elt.elts and \
-                    isinstance(v.generators[0].target, ast.Tuple) and isinstance(v.generators[0].target.elts[0], ast.Name):
-                kname = v.generators[0].target.elts[0].id
-                first = norm(v.elt.elts[0])
-                if first == kname:
-                    got_inner = False
-                elif first == kname + '.inner':
-                    got_inner = True
-                else:
-                    rep.violated('R9.2', fn, c, 'the group key handed to the caller is `%s`, neither the key nor its unwrapped value' % first, r)
-                    continue
-            else:
+            full = resolve(r.value, list(pth.effects))
+            lay = layers(full)
+            if lay is None:
                 rep.undecided('R9.2', fn, c, 'returned value not recognised', r)
                 continue
-            if got_inner == want_inner:
-                rep.held('R9.2', fn, c, 'key handed to the caller: %s' % first, r)
+            seen += 1
+            gb, form = lay
+            kw = [k.value for k in gb.keywords if k.arg == 'key'] + list(gb.args[1:2])
+            ktext = norm(kw[0]) if len(kw) == 1 else None
+            if is_callable:
+                key_ok = ktext == 'key'
+            else:
+                kk = kw[0] if len(kw) == 1 else None
+                key_ok = isinstance(kk, ast.Call) and norm(kk.func) == 'comparable_itemgetter' and len(kk.args) == 1 and \
+                    isinstance(kk.args[0], ast.Starred) and isinstance(kk.args[0].value, ast.Call) and \
+                    norm(kk.args[0].value.func) == 'asindices' and len(kk.args[0].value.args) == 2 and \
+                    norm(kk.args[0].value.args[1]) == 'key'
+            if key_ok:
+                rep.held('R9.2', fn, 'groupby key: ' + c, 'Comparable key over the key fields, or the caller\'s callable', gb)
+            else:
+                rep.violated('R9.2', fn, 'groupby key: ' + c,
+                             'rowgroupby must group the record stream by comparable_itemgetter(*asindices(hdr, key)) (or the '
+                             'callable key); on this path the key function is `%s`' % (ktext or '?')[:70], gb)
+            want = 'K' if is_callable else 'K.inner'
+            if form == want:
+                rep.held('R9.2', fn, c, 'key handed to the caller: %s' % ('k' if form == 'K' else 'k.inner'), r)
+            elif form is None:
+                rep.violated('R9.2', fn, c, 'the group key handed to the caller is neither the key nor its unwrapped value', r)
             else:
                 rep.violated('R9.2', fn, c, 'the group key handed to the caller must be %s (found %s)'
-                             % ('the unwrapped k.inner' if want_inner else 'the callable\'s own value k', first), r)
+                             % ('the unwrapped k.inner' if want == 'K.inner' else 'the callable\'s own value k',
+                                'k' if form == 'K' else 'k.inner'), r)
+    if not seen:
+        rep.undecided('R9.2', fn, 'rowgroupby', 'no returning path was recognised', fn.node)
 
 
 # ------------------------------------------------------------------------- R9.5
@@ -725,11 +723,12 @@ def r916(ctx, rep):
     try:
         c04.r41(ctx, sub)
         c04.r42(ctx, sub)
+        c04.r46(ctx, sub)
     finally:
         ctx.report = saved
     n = 0
     for o in sub.obligations:
-        if o.module in ('petl.comparison', 'petl.transform.sorts'):
+        if o.module in ('petl.comparison', 'petl.transform.sorts', 'petl.compat'):
             # (sorts: the heap items of the chunk merge compare keys only -- otherwise rows with equal keys are re-ordered
             # by their content and a group is no longer in input order)
             n += 1
